@@ -246,6 +246,47 @@ func run(tier string, sh *vkit.Shard, p *vkit.Part) {
 			}
 		}
 	}
+	// F (small, runs early). trailer sections that disagree with their announcement: fields nobody
+	// announced, announced fields that are absent, another field than the announced one, an
+	// announced one plus an extra one; last-chunk line with and without an extension. Whatever
+	// the parser decides about them, it must decide it in every segmentation.
+	{
+		host := []httpgen.Hdr{{Name: "Host", Val: " h"}}
+		type tv struct {
+			name, declared string
+			sent           []httpgen.Hdr
+		}
+		for _, v := range []tv{
+			{"unannounced1", "", []httpgen.Hdr{{Name: "A", Val: " 1"}}},
+			{"unannounced2", "", []httpgen.Hdr{{Name: "A", Val: " 1"}, {Name: "B-c", Val: " 22"}}},
+			{"announced-absent", "A", nil},
+			{"announced-A-sent-B", "A", []httpgen.Hdr{{Name: "B", Val: " 2"}}},
+			{"announced-A-sent-A+B", "A", []httpgen.Hdr{{Name: "A", Val: " 1"}, {Name: "B", Val: " 2"}}},
+			{"announced-A-sent-B+A", "A", []httpgen.Hdr{{Name: "B", Val: " 2"}, {Name: "A", Val: " 1"}}},
+		} {
+			for _, lastExt := range []string{"", ";x=y"} {
+				v, lastExt := v, lastExt
+				body := httpgen.Body{Kind: httpgen.BodyChunked, Chunks: [][]byte{[]byte("ab")}, LastExt: lastExt, Declared: v.declared, Trailers: v.sent}
+				desc := fmt.Sprintf("chunk2-trailers=%s-lastext=%q", v.name, lastExt)
+				req := (&httpgen.Req{Method: "POST", Target: "/", Version: "HTTP/1.1", Headers: host, Body: body}).Build()
+				req.Desc = "post-" + desc
+				res := (&httpgen.Res{Version: "HTTP/1.1", Status: "200 OK", Body: body}).Build()
+				res.Desc = "200-" + desc
+				lvF := level{double: true, policies3: true, trackCuts: true}
+				item(func() {
+					e.stream(req, false, lvF)
+					e.stream(httpgen.Pipeline(req, reqs[0]), false, lvF)
+					p.Count("trailer_announcement_streams", 2)
+				})
+				item(func() {
+					e.stream(res, true, lvF)
+					e.stream(httpgen.Pipeline(res, ress[0]), true, lvF)
+					p.Count("trailer_announcement_streams", 2)
+				})
+			}
+		}
+	}
+
 	// A. the grammar, both directions
 	strideReq, strideRes := 23, 11
 	if thorough {
